@@ -41,6 +41,13 @@ CHECKS = {
             'an itertools.product enumeration of control/treatment/neither assignments and (every third setting) with the '
             'distinct pairs listed by the real generators; exhaustive searches are checked to push no more designs than '
             'the count.', '§5 C11'),
+    'C08': ('icontract class invariant (P-DIAG) on the live object + fresh-object history checker',
+            'An icontract class invariant installed in place on the real TBRMMDiagnostics asserts after every public '
+            'call, property access and setter that each non-None cache slot equals what a pristine second copy of the '
+            'class computes from the current series; random histories of 1-40 writes / clears / bad writes / reads over '
+            'series pools whose diagnostics differ are run and every returned value is compared with a fresh object; '
+            'the invariant also stays on while the real searches re-use one diagnostics object across control groups.',
+            '§5 C08'),
 }
 
 NOT_YET = {}
